@@ -127,7 +127,16 @@ def run_part(ctx, ops, prop, k, prefixes=("secsgem.secs",), resolve="checks.pair
     for o in ops:
         _safe(rfn(o))
     n = trace_modules(list(prefixes))
-    tot, parts = explore_pairs(ctx, ops, resolve, prop, k, f"{prop.lower()}-pair")
+    # this part may use at most a quarter of the check's wall-clock budget: the enumeration that follows is the core of the check
+    import time  # noqa: PLC0415
+
+    whole = ctx.deadline
+    if whole is not None:
+        ctx.deadline = min(whole, time.time() + 0.25 * max(0.0, whole - ctx.t0))
+    try:
+        tot, parts = explore_pairs(ctx, ops, resolve, prop, k, f"{prop.lower()}-pair")
+    finally:
+        ctx.deadline = whole
     explore.close_pool()
     vrt.untrace_all()
     ctx.setcov("thread_pair_explorations", {"operations": [_kind(o) + ":" + str(o[1])[:40] for o in ops], "pairs": len(parts), "executions": tot,
